@@ -8,7 +8,8 @@
    from the headers.  `hall s` = all items stored in all generations; `spec_step` = the abstract finite map. *)
 From Coq Require Import ZArith List Permutation.
 From C01 Require Import HashModel HashSpec HashProofs HashInst HashInstProofs BucketFind.
-From C01 Require OpenN1Ops Gen_OpenN1_ops.
+From C01 Require Gen_One.
+From C01 Require OpenN1Ops Gen_OpenN1_ops Open2N2Ops Gen_Open2N2_ops.
 From C01 Require IterMachine KindFacts Gen_UnlimP Gen_LimP1 Gen_LimP1t Gen_LimP1f Gen_Lim4 Gen_LimP Open8Match.
 From C01 Require Gen_LimP4 Gen_Open2N2 Gen_Open2N2w Gen_OpenN1.
 Import ListNotations.
@@ -426,3 +427,69 @@ Theorem C01_openn1_slots :
       (Z.of_nat (length tags) <= i -> 248 <= d (OpenN1Ops.slot maxCount reverse i)).
 Proof. exact OpenN1Ops.n1_slots. Qed.
 Print Assumptions C01_openn1_slots.
+
+(* ---------- growth round 2: the REAL byte operations of BucketOpen2N2 (regenerated, symbolic maxCount in 1..3, part-getter layout) ----------
+   `repr2 st sh hp tags probes`: Bounds position j lives in slot maxCount-1-j; occupied slots hold short hashes `tags` (< 128) and hash-probe
+   bytes `probes`, unused slots the empty marker 128, the low two bits of mState[1] the count.  AddCrt appends the pair, Remove moves the LAST
+   pair into the hole, Clear empties; FRAME: the max-probe encoding (mState[0], mState[1] >> 2) is untouched, and whoever keeps the two count
+   bits (UpdateMaxProbe) keeps repr2. *)
+Theorem C01_open2n2_count :
+  forall maxCount st sh hp tags probes, Open2N2Ops.repr2 maxCount st sh hp tags probes ->
+    Gen_Open2N2_ops.pvGetCount st sh hp = Z.of_nat (length tags).
+Proof. exact Open2N2Ops.o2_count. Qed.
+Print Assumptions C01_open2n2_count.
+
+Theorem C01_open2n2_isfull :
+  forall maxCount, 1 <= maxCount <= 3 -> forall st sh hp tags probes, Open2N2Ops.repr2 maxCount st sh hp tags probes ->
+    (Gen_Open2N2_ops.IsFull st sh hp = true <-> Z.of_nat (length tags) = maxCount).
+Proof. exact Open2N2Ops.o2_isfull. Qed.
+Print Assumptions C01_open2n2_isfull.
+
+Theorem C01_open2n2_clear :
+  forall maxCount, 1 <= maxCount <= 3 -> forall st sh hp,
+    let '(st', sh') := Gen_Open2N2_ops.pvSetEmpty maxCount st sh hp in
+    Open2N2Ops.repr2 maxCount st' sh' hp [] [] /\ st' 0 = 0 /\ st' 1 = 0.
+Proof. exact Open2N2Ops.o2_clear. Qed.
+Print Assumptions C01_open2n2_clear.
+
+Theorem C01_open2n2_addcrt :
+  forall maxCount, 1 <= maxCount <= 3 -> forall st sh hp tags probes hc lg pr ni,
+    Open2N2Ops.repr2 maxCount st sh hp tags probes -> Z.of_nat (length tags) < maxCount -> 0 <= hc < 2 ^ 64 ->
+    exists st' sh' hp', Gen_Open2N2_ops.AddCrt maxCount st sh hp hc lg pr ni = GenPrelude.Ok (tt, st', sh', hp') /\
+      Open2N2Ops.repr2 maxCount st' sh' hp' (tags ++ [Gen_Open2N2_ops.pvCalcShortHash hc]) (probes ++ [Open2N2Ops.probe_byte hc lg pr]) /\
+      st' 0 = st 0 /\ st' 1 / 4 = st 1 / 4.
+Proof. exact Open2N2Ops.o2_addcrt. Qed.
+Print Assumptions C01_open2n2_addcrt.
+
+Theorem C01_open2n2_remove :
+  forall maxCount, 1 <= maxCount <= 3 -> forall st sh hp tags probes j,
+    Open2N2Ops.repr2 maxCount st sh hp tags probes -> 0 <= j < Z.of_nat (length tags) ->
+    exists st' sh' hp', Gen_Open2N2_ops.Remove maxCount st sh hp (Open2N2Ops.slot2 maxCount j) = GenPrelude.Ok (tt, st', sh', hp') /\
+      Open2N2Ops.repr2 maxCount st' sh' hp' (gbremove (Z.to_nat j) tags) (gbremove (Z.to_nat j) probes) /\
+      st' 0 = st 0 /\ st' 1 / 4 = st 1 / 4.
+Proof. exact Open2N2Ops.o2_remove. Qed.
+Print Assumptions C01_open2n2_remove.
+
+Theorem C01_open2n2_bound_frame :
+  forall maxCount st st' sh hp tags probes, Open2N2Ops.repr2 maxCount st sh hp tags probes ->
+    0 <= st' 1 < 256 -> (st' 1) mod 4 = (st 1) mod 4 -> Open2N2Ops.repr2 maxCount st' sh hp tags probes.
+Proof. exact Open2N2Ops.o2_bound_frame. Qed.
+Print Assumptions C01_open2n2_bound_frame.
+
+Theorem C01_open2n2_slots :
+  forall maxCount st sh hp tags probes, Open2N2Ops.repr2 maxCount st sh hp tags probes -> forall j, 0 <= j < maxCount ->
+    (j < Z.of_nat (length tags) -> sh (Open2N2Ops.slot2 maxCount j) = nth (Z.to_nat j) tags 0) /\
+    (Z.of_nat (length tags) <= j -> 128 <= sh (Open2N2Ops.slot2 maxCount j)).
+Proof. exact Open2N2Ops.o2_slots. Qed.
+Print Assumptions C01_open2n2_slots.
+
+(* BucketOne (regenerated AddCrt / Remove / Clear / IsFull / WasFull on the 64-bit hash state): a cleared bucket is neither full nor
+   was-full; AddCrt makes it full and was-full; Remove makes it not full and leaves was-full set; = the model's cap 1, wf0 false, wfThr 1 *)
+Theorem C01_one_ops_facts :
+  (Gen_One.IsFull (Gen_One.Clear 0) = false /\ Gen_One.WasFull (Gen_One.Clear 0) = false) /\
+  (forall st hc, Gen_One.IsFull st = false ->
+     exists st', Gen_One.AddCrt st hc = GenPrelude.Ok (tt, st') /\ Gen_One.IsFull st' = true /\ Gen_One.WasFull st' = true) /\
+  (forall st a, Gen_One.IsFull st = true ->
+     exists st', Gen_One.Remove st a a = GenPrelude.Ok (tt, st') /\ Gen_One.IsFull st' = false /\ Gen_One.WasFull st' = true).
+Proof. exact KindFacts.one_ops_facts. Qed.
+Print Assumptions C01_one_ops_facts.
